@@ -27,6 +27,10 @@ SETS = [
     ("interval_two", ["Y = 1..2", "q(Y)", "e(Y)"]),
     ("pool_join", ["q(X)", "Y = (1;2)", "q(Y)"]),
     ("assign_fun", ["q(X)", "Y = f(X)", "g(Y)"]),
+    ("assign_chain", ["q(Z)", "Y = Z+1", "X = Y*2", "g(X)"]),
+    ("assign_twice", ["q(Y)", "e(Z)", "X = Y", "X = Z", "g(X)"]),
+    ("assign_twice_arith", ["q(Y)", "e(Z)", "X = Y+1", "X = 2*Z"]),
+    ("assign_rev_chain", ["q(Z)", "X = Y*2", "Y = Z+1", "g(X)"]),
 ]
 
 # {S} literal set, {E} optional extra, variables X,Y (renamed per occurrence), {I} occurrence index
@@ -131,7 +135,9 @@ def jobs(tier: str):
     def nonbinding():
         # the shared set binds none of its variables; each occurrence has its own binder next to the set
         sets = [["X > 1", "not q(X)"], ["e(2*X)", "not q(X)"], ["X < 3", "X > 0"], ["X != Y", "not p(X,Y)"],
-                ["not e(X)", "not q(X)"], ["not not p(X,Z)", "q(Z)"], ["not not p(Z,X)", "not not q(Z)", "e(Z)"]]
+                ["not e(X)", "not q(X)"], ["not not p(X,Z)", "q(Z)"], ["not not p(Z,X)", "not not q(Z)", "e(Z)"],
+                ["q(1..X)", "not e(X)"], ["e(X&1)", "not q(X)"], ["e(~X)", "not q(X)"], ["e((X/2)+1)", "not q(X)"],
+                ["e(X?1)", "not q(X)"], ["e(-X+3)", "not q(X)"]]
         ctxs = [("cond", "h{I} :- g(Z) : {B}, {SC}."), ("agg", "h{I}(N) :- N = #sum {{ 1,X : {B}, {SC} }}."),
                 ("body", "h{I} :- {B}; {S}."), ("weak", ":~ {B}; {S}. [1@{I},X]")]
         uni = ["p(1,2)", "p(2,1)", "p(2,2)", "q(1)", "q(2)", "e(1)", "e(2)", "e(4)", "g(1)"]
